@@ -571,6 +571,162 @@ def replay_status(i):
 
 
 # ------------------------------------------------------------------------------------------------
+# after any change a control can make, the incrementally updated model must be the model a fresh build gives
+def _signature(m):
+    import wntr.sim.aml.aml as aml
+    import wntr.sim.aml.expr as expr
+    out = {}
+    for attr, val in vars(m).items():
+        if attr.startswith('_'):
+            continue
+        if isinstance(val, aml.Constraint):
+            out['row:' + attr] = str(val.expr)
+        elif isinstance(val, aml.ConstraintDict):
+            for k, c_ in val.items():
+                out['row:%s[%s]' % (attr, k)] = str(c_.expr)
+        elif isinstance(val, aml.ParamDict):
+            for k, p_ in val.items():
+                out['param:%s[%s]' % (attr, k)] = p_.value
+        elif isinstance(val, expr.Param):
+            out['param:' + attr] = val.value
+    return out
+
+
+def _changes(V, wn, mode):
+    """(label, obj, attr, setter) for every kind of change the ModelUpdater has a registration for"""
+    out = []
+    k = [0]
+
+    def sym(lo, hi):
+        k[0] += 1
+        return V.real('new%d' % k[0], lo, hi)
+    for ln, l in wn.links():
+        sts = [LinkStatus.Closed, LinkStatus.Open] + ([LinkStatus.Active] if isinstance(l, EL.Valve) else [])
+        for st in sts:
+            out.append(('%s.status=%s' % (ln, st.name), l, 'status', lambda l=l, st=st: setattr(l, '_user_status', st)))
+        out.append(('%s._is_isolated' % ln, l, '_is_isolated', lambda l=l: setattr(l, '_is_isolated', True)))
+        out.append(('%s.reconnected' % ln, l, '_is_isolated', lambda l=l: setattr(l, '_is_isolated', False)))
+        if isinstance(l, EL.Valve):
+            out.append(('%s.setting' % ln, l, 'setting', lambda l=l: setattr(l, '_setting', sym(0.01, 100))))
+            out.append(('%s.diameter' % ln, l, 'diameter', lambda l=l: setattr(l, 'diameter', sym(0.05, 2))))
+            out.append(('%s.minor_loss' % ln, l, 'minor_loss', lambda l=l: setattr(l, 'minor_loss', sym(0.1, 50))))
+        if isinstance(l, EL.Pipe):
+            out.append(('%s.roughness' % ln, l, 'roughness', lambda l=l: setattr(l, '_roughness', sym(50, 150))))
+            out.append(('%s.length' % ln, l, 'length', lambda l=l: setattr(l, '_length', sym(10, 1000))))
+            out.append(('%s.diameter' % ln, l, 'diameter', lambda l=l: setattr(l, '_diameter', sym(0.05, 2))))
+            out.append(('%s.minor_loss' % ln, l, 'minor_loss', lambda l=l: setattr(l, '_minor_loss', sym(0.1, 50))))
+        if isinstance(l, EL.PowerPump):
+            out.append(('%s.power' % ln, l, 'power', lambda l=l: setattr(l, '_base_power', sym(100, 1e5))))
+    for nn, n in list(wn.junctions()) + list(wn.tanks()):
+        out.append(('%s.leak_status=on' % nn, n, 'leak_status', lambda n=n: setattr(n, '_leak_status', True)))
+        out.append(('%s.leak_area' % nn, n, 'leak_area', lambda n=n: setattr(n, '_leak_area', sym(1e-4, 0.1))))
+        out.append(('%s.leak_discharge_coeff' % nn, n, 'leak_discharge_coeff', lambda n=n: setattr(n, '_leak_discharge_coeff', sym(0.1, 1))))
+        out.append(('%s.leak_status=off' % nn, n, 'leak_status', lambda n=n: setattr(n, '_leak_status', False)))
+    for nn, n in wn.junctions():
+        out.append(('%s._is_isolated' % nn, n, '_is_isolated', lambda n=n: setattr(n, '_is_isolated', True)))
+        out.append(('%s.reconnected' % nn, n, '_is_isolated', lambda n=n: setattr(n, '_is_isolated', False)))
+        out.append(('%s.elevation' % nn, n, 'elevation', lambda n=n: setattr(n, '_elevation', sym(0, 50))))
+        if mode == 'PDD':
+            out.append(('%s.required_pressure' % nn, n, 'required_pressure', lambda n=n: setattr(n, '_required_pressure', 27.5)))
+            out.append(('%s.minimum_pressure' % nn, n, 'minimum_pressure', lambda n=n: setattr(n, '_minimum_pressure', 2.5)))
+    return out
+
+
+def _with_leaks(wn):
+    # every junction and tank has a (not yet active) leak, as add_leak leaves it before the start time
+    for nn, n in list(wn.junctions()) + list(wn.tanks()):
+        n._leak, n._leak_status, n._leak_area, n._leak_discharge_coeff = True, False, 0.002, 0.7
+    return wn
+
+
+def check_updates(rep, tname, mode):
+    tag = '%s/%s' % (tname, mode)
+    undo = [symx.install_shims(param, ('math',)), symx.install_shims(EL, ('int', 'float', 'isinstance', 'math', 'np'))]
+    try:
+        with amlsmt.installed():
+            def harness(c):
+                V = SymVars(c)
+                wn = _with_leaks(modelkit.TEMPLATES[tname](mode))
+                m, upd = hydraulics.create_hydraulic_model(wn)
+                log = []
+                for label, obj, attr, setter in _changes(V, wn, mode):
+                    setter()
+                    upd.update(m, wn, obj, attr)
+                    fresh, _ = hydraulics.create_hydraulic_model(wn)
+                    log.append((label, _signature(m), _signature(fresh)))
+                return V, log
+            n = 0
+            bad = False
+            cons = []
+            for path in symx.explore(harness, max_paths=64, timeout_s=300):
+                n += 1
+                cons = path.constraints()
+                if path.exc is not None:
+                    rep.counterexample('update/%s/raised' % tag, dict(template=tname, mode=mode, why='%s: %s' % (type(path.exc).__name__, path.exc)), 'update')
+                    bad = True
+                    break
+                V, log = path.value
+                for label, a, b in log:
+                    diffs, claims = [], []
+                    for key in sorted(set(a) | set(b)):
+                        va, vb = a.get(key, '<absent>'), b.get(key, '<absent>')
+                        if isinstance(va, Sym) or isinstance(vb, Sym):
+                            if isinstance(va, str) or isinstance(vb, str):
+                                diffs.append('%s: %s vs %s' % (key, va, vb))
+                            else:
+                                claims.append(zabs(real(va) - real(vb)) <= rv(1e-9) * zabs(real(vb)) + rv(1e-12))
+                        elif isinstance(va, str) or isinstance(vb, str):
+                            if va != vb:
+                                diffs.append('%s is %s, a fresh build has %s' % (key, str(va)[:120], str(vb)[:120]))
+                        elif abs(va - vb) > 1e-9 * max(1.0, abs(vb)):
+                            diffs.append('%s = %r, a fresh build has %r' % (key, va, vb))
+                    if diffs:
+                        rep.counterexample('update/%s/%s' % (tag, label), dict(template=tname, mode=mode, change=label, why=diffs[0]), 'update')
+                        bad = True
+                        break
+                    if not rep.prove('update/%s/%s/path%d' % (tag, label, n), cons, z3.And(*claims) if claims else z3.BoolVal(True), lambda mdl, V=V, label=label: V.witness(mdl, template=tname, mode=mode, change=label),
+                                     'update', sample='after %s the updated model equals a fresh build (%d rows / parameters, %d symbolic)' % (label, len(a), len(claims))):
+                        bad = True
+                        break
+                if bad:
+                    break
+            if not bad and n:
+                rep.reach('update/' + tag, cons)
+    finally:
+        for u in undo:
+            u()
+
+
+def replay_update(i):
+    """plain floats: the same change sequence on the real classes (value-container evaluator is not needed: structure and parameter values only)"""
+    tname, mode = i['template'], i['mode']
+    vals = {k: v for k, v in i.items() if k.startswith('new')}
+
+    class _V:
+        symbolic = False
+
+        def real(self, name, lo=None, hi=None, ne=None):
+            return float(vals.get(name, (lo + hi) / 2.0))
+    try:
+        wn = _with_leaks(modelkit.TEMPLATES[tname](mode))
+        m, upd = hydraulics.create_hydraulic_model(wn)
+        for label, obj, attr, setter in _changes(_V(), wn, mode):
+            setter()
+            upd.update(m, wn, obj, attr)
+            fresh, _ = hydraulics.create_hydraulic_model(wn)
+            a, b = _signature(m), _signature(fresh)
+            for key in sorted(set(a) | set(b)):
+                va, vb = a.get(key, '<absent>'), b.get(key, '<absent>')
+                if isinstance(va, str) or isinstance(vb, str):
+                    if va != vb:
+                        return 'after %s the model has %s = %s; a model built from the changed network has %s' % (label, key, str(va)[:150], str(vb)[:150])
+                elif abs(va - vb) > 1e-9 * max(1.0, abs(vb)):
+                    return 'after %s the parameter %s is %r; a model built from the changed network has %r' % (label, key, va, vb)
+    except Exception as ex:
+        return 'updating the model raised %s: %s' % (type(ex).__name__, ex)
+    return None
+
+
 LINKS_QUICK = [
     # template, link, statuses
     ('T2', 'P1', ('Open', 'Closed')), ('T2', 'P3', ('Open',)), ('T2', 'P5', ('Open',)),
@@ -596,6 +752,9 @@ def run(rep, only=None):
     for k, d in modelkit.DESCRIPTIONS.items():
         rep.templates.append('%s: %s' % (k, d))
     rep.bound('flow and end heads: any real; coefficients: concrete template values and (symcoef pass) any k > 0, minor loss, TCV resistance, power, setting >= 0')
+    rep.bound('updates: on templates T3, T5, T6 (thorough: all) x DD/PDD, after each change a control or the simulator can make (status of every link, isolation flags, valve setting / diameter / '
+              'minor loss, pipe roughness / length / diameter / minor loss, pump power, leak status / area / coefficient, elevation, PDD pressures; new numeric values symbolic) and the '
+              'ModelUpdater call registered for it, every row text and every parameter value equals that of a model built afresh from the changed network')
     rep.bound('fractional powers: uninterpreted strictly increasing function with pow(0)=0, pow(1)=1, exact values at concrete arguments')
     rep.bound('pump curves: 1- and 2-point symbolic; 3-point fit (scipy curve_fit) is outside: the fitted A, B, C enter as the concrete numbers the real code returns')
     rep.bound('open PRV/PSV: q >= 0 (reverse flow closes them); power pump / head pump reverse-flow branch not claimed (needs the Newton solve to select the solution branch)')
@@ -613,4 +772,7 @@ def run(rep, only=None):
     tasks.append(('params', check_params, ()))
     tasks.append(('curve', check_curve, ()))
     tasks.append(('status', check_status, ()))
+    for tname in (('T3', 'T5', 'T6') if rep.tier == 'quick' else sorted(modelkit.TEMPLATES)):
+        for mode in ('DD', 'PDD'):
+            tasks.append(('update-%s-%s' % (tname, mode), check_updates, (tname, mode)))
     run_parallel(rep, tasks)
